@@ -12,10 +12,10 @@ Definition C03_full : Prop := refines_reference.
 (* A fresh not(G) node asks G once.  It answers with exactly the substitution it was created
    with - no binding of G is visible - iff G has no answer, fails otherwise, and is spent:
    by C05 every later request fails (it succeeds at most once). *)
-Theorem C03_not_node : forall kb f ss h tl ot w nd' r c w',
-  next kb (S f) (NOp ONot ss false true (Some h) tl ot) w = Ok (nd', r, c, w') ->
+Theorem C03_not_node : forall kb bf f ss h tl ot w nd' r c w',
+  next kb bf (S f) (NOp ONot ss false true (Some h) tl ot) w = Ok (nd', r, c, w') ->
   exists h' sol,
-    next kb f h w = Ok (h', sol, c, w') /\
+    next kb bf f h w = Ok (h', sol, c, w') /\
     r = match sol with Some _ => None | None => Some ss end /\
     dead nd'.
 Proof. exact not_node_spec. Qed.
@@ -32,7 +32,7 @@ Definition C03_demo : bool :=
   match make_node kb (GOp ONot [GCall (TComplex [TAtom [101%N]; X])]) [None; Some (TInt 3)] (mkWorld 1 false None []),
         make_node kb (GOp ONot [GCall (TComplex [TAtom [101%N]; X])]) [None; None] (mkWorld 1 false None []) with
   | Ok (n1, w1), Ok (n2, w2) =>
-      match next kb 20 n1 w1, next kb 20 n2 w2 with
+      match next kb 20 20 n1 w1, next kb 20 20 n2 w2 with
       | Ok (_, Some [None; Some (TInt 3)], _, _), Ok (_, None, _, _) => true
       | _, _ => false
       end
@@ -41,10 +41,10 @@ Definition C03_demo : bool :=
 Example C03_witness : C03_demo = true.
 Proof. vm_compute. reflexivity. Qed.
 
-Check C03_not_node : forall kb f ss h tl ot w nd' r c w',
-  next kb (S f) (NOp ONot ss false true (Some h) tl ot) w = Ok (nd', r, c, w') ->
+Check C03_not_node : forall kb bf f ss h tl ot w nd' r c w',
+  next kb bf (S f) (NOp ONot ss false true (Some h) tl ot) w = Ok (nd', r, c, w') ->
   exists h' sol,
-    next kb f h w = Ok (h', sol, c, w') /\
+    next kb bf f h w = Ok (h', sol, c, w') /\
     r = match sol with Some _ => None | None => Some ss end /\
     dead nd'.
 
